@@ -328,7 +328,7 @@ class C36(C.Check):
                     where.append((ci, sec, k, "classic"))
                     checks.append(jax_term(arrs, o["jax"][sec][k], c["cplx"]))
                     where.append((ci, sec, k, "jax"))
-        bad = C.eval_cases(self.prop, "corr", HEADER, checks)
+        bad = C.eval_cases(self.prop, "corr_p%d" % os.getpid(), HEADER, checks)
         for i in bad[:4]:
             ci, sec, k, api = where[i]
             res.add_broken("correspondence", "%s diagnostics vs coq/C36/Model.v" % api,
